@@ -133,15 +133,43 @@ META3 = {
 }
 
 
+# round 4 (variants G, H = patchA, patchB in /tmp/mut/<id>r4/out)
+META4 = {
+ ("C03","G"): dict(needs="async function with a destructuring-pattern parameter; two calls differing only there", demo_dest="cachelito-async/tests/", detected_by=["C03 (oracle once on the plain pattern-parameter functions)"]),
+ ("C03","H"): dict(needs="sync function with a Vec<Vec<T>> argument; two nested vectors with the same flattened contents", demo_dest="tests/", detected_by=["C03 (oracle once on the nested-collection functions, sig 10)", "C02"]),
+ ("C04","G"): dict(needs="sync global limit without max_memory, fifo/lfu/random; a stale refresh of a key that is not the newest", demo_dest="tests/", detected_by=["C04 (macro part C04R: queue and stored keys disagree / a store that did not overflow removed an entry)"]),
+ ("C04","H"): dict(needs="scope = thread with limit AND max_memory", demo_dest="tests/", detected_by=["C04 (c04 predicate)"]),
+ ("C05","G"): dict(needs="async max_memory; a stale refresh whose new value alone exceeds max_memory, then a store", demo_dest="cachelito-async/tests/", detected_by=["C05 (oracle mem / c05 predicate: total > max_memory)"]),
+ ("C05","H"): dict(needs="sync global lru/arc/tlru with max_memory and NO limit; a hit on an older entry, then an overflow", demo_dest="tests/", detected_by=["C05 (core part now evaluates the order predicates c07/c08 under memory pressure, with scenarios)"]),
+ ("C06","G"): dict(needs="sync ttl; a lookup at an age in [T-0.5 s, T)", demo_dest="tests/", detected_by=["C06 (c06 predicate: 250 ms time steps)"]),
+ ("C06","H"): dict(needs="async ttl; a refresh (expired entry found) whose body takes real time", demo_dest="cachelito-async/tests/", detected_by=["C06 / C20 (slow-refresh scenario with a real sleep while the call is suspended: entry born at the lookup, not at the store)"]),
+ ("C11","G"): dict(needs="sync global invalidate_on whose verdict for the old value flips while the body runs (dirty flag cleared by the recomputation)", demo_dest="tests/", detected_by=["C11 (check scripts that say stale once and fresh afterwards within one call; oracle inv)"]),
+ ("C11","H"): dict(needs="async Result + invalidate_on; stale entry, recomputation returns Err", demo_dest="cachelito-async/tests/", detected_by=["C11 (oracle inv: the rejected value was returned instead of the body's result)"]),
+ ("C12","G"): dict(needs="an event label with an upper-case letter or surrounding blanks", demo_dest="tests/", detected_by=["C12 (oracle tags: count)"]),
+ ("C12","H"): dict(needs="async cache with labels and no name attribute; invalidate_cache(<function name>)", demo_dest="cachelito-async/tests/", detected_by=["C12 (oracle tags for invalidate_cache: registered under its name)"]),
+ ("C13","G"): dict(needs="sync global lru/arc/tlru with limit >= 5; a hit on an old entry, then an invalidate_with removing more entries than it leaves, then overflow", demo_dest="tests/", detected_by=["C13 (bulk-invalidation scenario; oracle frame: queue order of the survivors)"]),
+ ("C13","H"): dict(needs="async ttl + limit; an expired, not looked-up entry whose key does not match; any invalidate_with", demo_dest="cachelito-async/tests/", detected_by=["C13 (oracle frame)"]),
+ ("C14","G"): dict(needs="sync global lfu/arc/tlru with a limit; hits by one thread, the evicting store by another", demo_dest="tests/", detected_by=["C14 (oracle score on three threads)"]),
+ ("C14","H"): dict(needs="async ttl; B sees the key expired, C stores a fresh value, B purges", demo_dest="cachelito-async/tests/", detected_by=["C14 (sched part, failed-refresh races: the fresh value is not served)"]),
+ ("C17","G"): dict(needs="sync global limit L; more than L stores in flight between their map write and the queue lock", demo_dest="tests/", detected_by=["C17 (sched part: NORETURN)"]),
+ ("C17","H"): dict(needs="async lru/arc/tlru; a hit holding a DashMap guard while it waits for the queue, a store holding the queue", demo_dest="cachelito-async/tests/", detected_by=["C17 (sched part: NORETURN)"]),
+ ("C18","G"): dict(needs="async ttl + limit; an expired lookup racing a store of the same key whose own result is not stored", demo_dest="cachelito-async/tests/", detected_by=["C18 (sched part, failed-refresh races: UNTRACKED at quiescence)"]),
+ ("C18","H"): dict(needs="sync global ttl; an expired lookup racing a store inside its queue section (map-then-queue order in the purge)", demo_dest="tests/", detected_by=["C18 / C17 (sched part: DEADLOCK; locks part: order violated)"]),
+ ("C20","G"): dict(needs="async max_memory with room for exactly the resident values; a same-key store during the suspension, then the resumed store", demo_dest="cachelito-async/tests/", detected_by=["C20 (tight-replace scenario; oracle c20: a replacing store evicted although everything fits)"]),
+ ("C20","H"): dict(needs="async ttl, no max_memory; a same-key store during the suspension, ttl runs out, resume", demo_dest="cachelito-async/tests/", detected_by=["C20 (oracle c20: entry born before the resume)"]),
+}
+
+
 def main():
     todo = [(pid, v, m, "/tmp/mut/%s/out" % pid, v) for (pid, v), m in META.items()]
+    todo += [(pid, v, m, "/tmp/mut/%sr4/out" % pid, {"G": "A", "H": "B"}[v]) for (pid, v), m in META4.items()]
     todo += [(pid, v, m, "/tmp/mut/%sr2/out" % pid, {"C": "A", "D": "B"}[v]) for (pid, v), m in META2.items()]
     todo += [(pid, v, m, "/tmp/mut/%sr3/out" % pid, {"E": "A", "F": "B"}[v]) for (pid, v), m in META3.items()]
     for pid, v, m, src, sv in todo:
         if not os.path.exists(src + "/patch%s.diff" % sv):
             continue
         dst = "/verif/seeded/%s-%s" % (pid, v)
-        if os.path.exists(dst + "/patch.diff") and v in ("A", "B", "C", "D"):
+        if os.path.exists(dst + "/patch.diff") and v in ("A", "B", "C", "D", "E", "F"):
             continue   # rounds 1 and 2 are saved (some patches were ported by hand afterwards)
         os.makedirs(dst, exist_ok=True)
         shutil.copy(src + "/patch%s.diff" % sv, dst + "/patch.diff")
